@@ -206,8 +206,8 @@ def compile_probe(items, tag):
     os.makedirs(os.path.join(d, "src"))
     os.makedirs(os.path.join(d, ".cargo"))
     open(os.path.join(d, "Cargo.toml"), "w").write(
-        '[package]\nname = "probe"\nversion = "0.0.0"\nedition = "2021"\n[workspace]\n[dependencies]\nts-rs = { path = "/repo/ts-rs" }\n'
-        '[profile.dev]\ndebug = false\nincremental = false\n')
+        '[package]\nname = "probe"\nversion = "0.0.0"\nedition = "2021"\n[workspace]\n[dependencies]\nts-rs = { path = "%s/ts-rs" }\n'
+        '[profile.dev]\ndebug = false\nincremental = false\n' % vlib.REPO)
     open(os.path.join(d, ".cargo", "config.toml"), "w").write('[net]\noffline = true\n[build]\ntarget-dir = "../target-probe"\n')
     shutil.copy(os.path.join(vlib.HARNESS, "rt", "Cargo.lock"), os.path.join(d, "Cargo.lock"))
     lines = ["#![allow(dead_code, non_camel_case_types, non_snake_case, unused)]", "use ts_rs::TS;",
